@@ -369,3 +369,17 @@ def _post(ctx, desc):
     hk.deregister()
     if _nhooks(mod) != 0 and target in ("plain", "buffer"):
         return ctx.violation("post.deregister.dangling_handle", "handle left after deregister", desc)
+
+
+def run_suite(ctx):
+    """the repository's hook tests with the clamp / norm post-conditions evaluated inside every firing"""
+    from rv import suite
+
+    _install_postconditions()
+    n0 = len(_POST["violations"])
+    suite.run_tests(ctx, ["neural/test_hooks.py", "core/test_hooks.py"])
+    ctx.counters["suite_postcondition_evaluations"] = _POST["clamp_evals"] + _POST["norm_evals"]
+    ctx.case("suite/test_hooks")
+    ctx.case("suite/invariant=clamp_norm_postconditions")
+    for mech, what in _POST["violations"][n0:][:5]:
+        ctx.violation(f"suite.post.{mech}", what, {"kind": "suite"})
